@@ -281,7 +281,14 @@ class CaseInterp:
             raise Unknown('discriminant')
         if k == 'agg':
             a = rv['agg']
-            ops = [self.operand(o) for o in rv['ops']]
+            ops = []
+            for o in rv['ops']:
+                try:
+                    ops.append(self.operand(o))
+                except Effect:
+                    raise
+                except Unknown as e:
+                    ops.append(('opaque', 'component outside the fragment: %s' % e))   # equal to nothing a contract expects
             if a['k'] == 'tuple':
                 return ('tuple', ops)
             if a['k'] == 'closure':
@@ -429,6 +436,10 @@ class CaseInterp:
                 raise Panic()
             if n == 'unwrap_or_else':
                 return r[1] if r[0] == 'ok' else self.apply(a[1], [r[1]])
+        if n in ('saturating_sub', 'checked_sub', 'wrapping_sub') and len(a) == 2 and isinstance(a[0], tuple) and a[0][:1] == ('len',) and a[1] == 1 and n == 'saturating_sub':
+            return ('len-1', a[0][1])
+        if n == 'saturating_sub' and len(a) == 2 and all(isinstance(x, int) and not isinstance(x, bool) for x in a):
+            return max(a[0] - a[1], 0)
         if n == 'then' and len(a) == 2 and isinstance(a[0], bool):
             return some(self.apply(a[1], [])) if a[0] else NONE
         if n == 'then_some' and len(a) == 2 and isinstance(a[0], bool):
@@ -534,7 +545,21 @@ class CaseInterp:
                 except Unknown:
                     if c.name not in TRANSPARENT:
                         if self.passes_mut(t):
-                            raise Effect('crate-local callee %s outside the fragment received a `&mut`' % short)
+                            owned = self.owned_mut_targets(t)
+                            wf = self.written_fields(cands[0])
+                            if owned is not None and len(owned) == 1 and wf is not None and isinstance(self.vals.get(owned[0]), tuple) and \
+                                    self.vals[owned[0]][:1] == ('struct',) and t['args'][0]['k'] in ('copy', 'move'):
+                                # a `&mut self` helper on a struct value this body owns: only the fields it may write become unknown
+                                cur_ = self.vals[owned[0]]
+                                nd_ = dict(cur_[2])
+                                for f_ in wf:
+                                    nd_[f_] = ('opaque', 'written by %s' % short)
+                                self.vals[owned[0]] = ('struct', cur_[1], nd_)
+                                raise Unknown('result of %s' % short)
+                            if owned is None:
+                                raise Effect('crate-local callee %s outside the fragment received a `&mut`' % short)
+                            for l_ in owned:
+                                self.vals.pop(l_, None)
                         raise
         try:
             return self.named_call(c.name, short, args, c)
@@ -542,8 +567,81 @@ class CaseInterp:
             raise
         except Unknown as e:
             if self.passes_mut(t):
-                raise Effect('unmodelled callee %s received a `&mut` (%s)' % (short, e))
+                owned = self.owned_mut_targets(t)
+                if owned is None:
+                    raise Effect('unmodelled callee %s received a `&mut` (%s)' % (short, e))
+                for l_ in owned:      # the callee may have changed a container this body owns: its value is no longer known
+                    if l_ not in getattr(self, '_keep', set()):
+                        self.vals.pop(l_, None)
+                self._keep = set()
             raise
+
+    def written_fields(self, body):
+        """first-level fields of `*self` (parameter 1) a `&mut self` helper may write: assigned through `(*_1).f..` or mutably borrowed;
+        None when it may write anything else of `*self`"""
+        out = set()
+        for bb, j, st in body.stmts():
+            if st['k'] != 'assign':
+                continue
+            for pl, is_write in ((st['place'], True), (st['rv'].get('place') if st['rv'].get('k') == 'ref' and st['rv'].get('mut') else None, True)):
+                if pl is None or pl['local'] != 1 or not pl['proj']:
+                    continue
+                pr = pl['proj']
+                if pr[0]['k'] == 'deref' and len(pr) >= 2 and pr[1]['k'] == 'field':
+                    out.add(pr[1]['name'])
+                elif pl is st['place'] or (pl is not st['place']):
+                    return None
+        for bb, t in body.calls():
+            for x in t['args']:
+                if x['k'] in ('copy', 'move') and x['place']['local'] == 1 and not x['place']['proj']:
+                    return None      # `self` handed on as a whole
+        return out
+
+    def fresh_allocation(self, l, depth=0):
+        """the local is (a pointer derived by casts / field reads from) a box this body has just allocated: `vec![..]`, `Box::new(..)`"""
+        d = self.b.defs().get(l, [])
+        if len(d) != 1 or depth > 8:
+            return False
+        bb, j = d[0]
+        if j == 'term':
+            t = self.b.blocks[bb]['term']
+            return t['k'] == 'call' and Callee(t['func']).name in ('new_uninit', 'new_uninit_slice', 'exchange_malloc', 'box_new') and not t['args']
+        rv = self.b.blocks[bb]['stmts'][j].get('rv', {})
+        if rv.get('k') in ('cast', 'use') and rv['op']['k'] in ('copy', 'move') and not any(p['k'] == 'deref' for p in rv['op']['place']['proj']):
+            return self.fresh_allocation(rv['op']['place']['local'], depth + 1)
+        return False
+
+    def owned_mut_targets(self, t):
+        """the locals behind the `&mut` arguments of a call, if every one of them is storage owned by this body (not reachable from a parameter);
+        None otherwise"""
+        out = []
+        defs = self.b.defs()
+        for x in t['args']:
+            if x['k'] in ('copy', 'move') and not x['place']['proj']:
+                l = x['place']['local']
+                ty = self.b.locals[l].get('ty', '') if l < len(self.b.locals) else ''
+                if not (ty.startswith('&mut') or ty.startswith('*mut')):
+                    continue
+                d = defs.get(l, [])
+                if len(d) != 1 or d[0][1] == 'term':
+                    return None
+                rv = self.b.blocks[d[0][0]]['stmts'][d[0][1]].get('rv', {})
+                if rv.get('k') != 'ref' or any(p['k'] == 'deref' for p in rv['place']['proj']):
+                    return None
+                tl = rv['place']['local']
+                tty = self.b.locals[tl].get('ty', '') if tl < len(self.b.locals) else ''
+                if tl <= self.b.arg_count or tty.startswith('&') or tty.startswith('*'):
+                    return None
+                pr = rv['place']['proj']
+                cur = self.vals.get(tl)
+                if pr and pr[0]['k'] == 'field' and isinstance(cur, tuple) and cur[:1] == ('struct',):
+                    # only one field of a struct value this body owns is handed out: the other fields stay known
+                    nd = dict(cur[2])
+                    nd[pr[0]['name']] = ('opaque', 'changed by a callee')
+                    self.vals[tl] = ('struct', cur[1], nd)
+                    self._keep = getattr(self, '_keep', set()) | {tl}
+                out.append(tl)
+        return out
 
     def passes_mut(self, t):
         for x in t['args']:
@@ -609,6 +707,27 @@ class CaseInterp:
             for st in bl['stmts']:
                 if st['k'] == 'assign':
                     if st['place']['proj']:
+                        from .effects import place_is_owned
+                        l_ = st['place']['local']
+                        pr_ = st['place']['proj']
+                        cur_ = self.vals.get(l_)
+                        if l_ > self.b.arg_count and len(pr_) == 1 and pr_[0]['k'] == 'field' and isinstance(cur_, tuple) and cur_[:1] == ('struct',):
+                            # `local.field = v` on a struct value this body owns: a functional update of the model value
+                            try:
+                                v_ = self.rvalue(st['rv'])
+                            except Effect:
+                                raise
+                            except Unknown as e:
+                                v_ = ('opaque', 'component outside the fragment: %s' % e)
+                            nd_ = dict(cur_[2])
+                            nd_[pr_[0]['name']] = v_
+                            self.vals[l_] = ('struct', cur_[1], nd_)
+                            continue
+                        if l_ > self.b.arg_count and (place_is_owned(self.b, st['place'], bb, bl['stmts'].index(st)) or self.fresh_allocation(l_)):
+                            # a write into storage this body owns (a fresh box behind `vec![..]`, a local struct): the local is no longer
+                            # known, nothing of the modelled inputs changes
+                            self.vals.pop(l_, None)
+                            continue
                         raise Effect('write through a projection')
                     try:
                         self.vals[st['place']['local']] = self.rvalue(st['rv'])
